@@ -218,7 +218,7 @@ def run(chk):
         "nesting deeper than 64 brackets is outside the property and is not generated",
     ]
     chk.floor = 20000
-    chk.rule += '; plus characters of every Unicode class in every lexical position, long identifiers whose multi-byte characters straddle every byte offset up to 70, and the empty string literal in the token vocabulary'
+    chk.rule += '; plus characters of every Unicode class in every lexical position, long identifiers whose multi-byte characters straddle every byte offset up to 70, and the empty string literal in the token vocabulary; diagnosed-not-executed also through -c and through REPL lines (markers and a counter that a diagnosed line must not touch)'
     fails = []   # (site, msg, witness, origin)
 
     # ---- (1)(2) enumerations inside the probe
@@ -475,6 +475,51 @@ def run(chk):
                     chk.violation("executed-despite-diagnostics|" + fault,
                                   "program printed its marker although diagnostics were reported",
                                   {"text": src, "stdout": out[-200:], "stderr": err[-300:]})
+        # the same through the other two ways a program text reaches the front end: -c, and a line of the REPL (one
+        # session for all single-line faults; a later line shows that assignments of a diagnosed line did not happen)
+        for k, fault in enumerate(FAULTS):
+            if "\n" in fault or "'" in fault:
+                continue
+            marker = "C%dK" % k
+            rr = core.run_binary(["-c", "puts(\"%s\"); %s" % (marker, fault)], timeout=20, step_budget=100000)
+            if rr["timeout"] or core.crashed(rr):
+                continue
+            err = rr["err"].decode("utf-8", "replace")
+            out = rr["out"].decode("utf-8", "replace")
+            diagnosed = ("parse errors" in err) or ("compile error" in err)
+            n_exec += 1
+            chk.observed(("diag-exec-c", diagnosed, marker in out))
+            if diagnosed and marker in out:
+                chk.violation("executed-despite-diagnostics|-c|" + fault, "-c program printed its marker although diagnostics were reported",
+                              {"text": fault, "stdout": out[-200:], "stderr": err[-300:]})
+        lines = ["let keep = 1;"]
+        idx = {}
+        for k, fault in enumerate(FAULTS):
+            if "\n" in fault or fault in ("@ {", "@", "@ end 1", "map {", "\"abc", "(1", "[1, 2", "1 +", "if 1 {} else"):
+                continue      # (open brackets / filters would swallow or re-route the following lines)
+            idx[len(lines)] = (k, fault)
+            lines.append("puts(\"R%dK\"); keep = keep + 1; %s" % (k, fault))
+        lines.append("puts(\"KEEP=\", keep);")
+        outs, errs, rr = core.repl_session(lines, timeout=60)
+        if outs is None:
+            chk.inconc("REPL session for diagnosed-not-executed did not finish")
+        else:
+            accepted = 0
+            for li, (k, fault) in idx.items():
+                diagnosed = ("parse error" in errs[li]) or ("compile error" in errs[li]) or ("failed to parse" in errs[li]) or ("expected" in errs[li] and "R%dK" % k not in outs[li])
+                printed = ("R%dK" % k) in outs[li]
+                n_exec += 1
+                chk.observed(("diag-exec-repl", diagnosed, printed))
+                if printed and not errs[li].strip():
+                    accepted += 1
+                if printed and errs[li].strip() and "Runtime error" not in errs[li]:
+                    chk.violation("executed-despite-diagnostics|repl|" + fault, "a REPL line printed its marker although diagnostics were reported for it",
+                                  {"line": lines[li], "stdout": outs[li][-200:], "stderr": errs[li][-300:]})
+            m_ = re.search(r"KEEP=(\d+)", outs[-1] if outs else "")
+            runtime_ok = sum(1 for li in idx if ("R%dK" % idx[li][0]) in outs[li])
+            if m_ and int(m_.group(1)) != 1 + runtime_ok:
+                chk.violation("executed-despite-diagnostics|repl|assignments", "after the session the counter is %s, but only %d lines printed their marker" % (m_.group(1), runtime_ok),
+                              {"lines": lines[:60]})
         chk.count("diagnosed_not_executed_runs", n_exec)
     finally:
         import shutil
